@@ -186,12 +186,45 @@ def scenarios(draw):
     dmg = {"kind": draw(st.sampled_from(kinds)), "pos": draw(st.integers(0, 1 << 20)), "bit": draw(st.integers(0, 7)), "len": draw(st.integers(0, 40)), "seed": draw(st.integers(0, 1000))}
     tool = draw(st.sampled_from(["xz-dc", "xz-dc", "xz-t", "xz-d", "xzdec"])) if fmt == "xz" else draw(st.sampled_from(["xz-dc", "xz-t", "xz-d"]))
     # options that must not change the verdict on a damaged file (compression-only settings are legal and ignored when decoding)
-    opts = draw(st.lists(st.sampled_from(["-q", "-Q", "-qq", "-v", "--no-warn", "--quiet", "--check=crc32", "--check=sha256", "-Ccrc64", "--check=none", "-T2", "-T0", "-6e",
-                                          "--no-sparse", "--format=auto", "--lzma2=dict=1MiB", "--block-size=65536"]), max_size=3, unique=True))
+    opts = draw(st.lists(st.sampled_from(OPTION_POOL), max_size=3, unique=True))
     envopt = draw(st.sampled_from([None, None, None, None, ["XZ_OPT", "--check=crc32"], ["XZ_DEFAULTS", "--check=sha256 -T2"], ["XZ_OPT", "-q -Q"]]))
     extra = st.lists(st.sampled_from(["dir", "unknown-suffix"]), max_size=2, unique=True)
     return {"file": f, "damage": dmg, "tool": tool, "opts": opts, "env": envopt, "before": draw(extra), "after": draw(extra)}
 
 
+OPTION_POOL = ["-q", "-Q", "-qq", "-v", "--no-warn", "--quiet", "--check=crc32", "--check=sha256", "-Ccrc64", "--check=none", "-T2", "-T0", "-6e",
+               "--no-sparse", "--format=auto", "--lzma2=dict=1MiB", "--block-size=65536"]
+ENV_POOL = [["XZ_OPT", "--check=crc32"], ["XZ_DEFAULTS", "--check=sha256 -T2"], ["XZ_OPT", "-q -Q"], ["XZ_DEFAULTS", "-Ccrc64"], ["XZ_OPT", "-T0 --no-sparse"]]
+
+
+def fixed_scenarios(S, tier, seed):
+    """Always-run: damage that only the integrity check can see (a bit inside a stored LZMA2 chunk; a bit of the Check field) x every option of
+    the pool on its own, on the command line or through XZ_OPT / XZ_DEFAULTS x xz -dc / -t / -d (and xzdec without options)."""
+    checks = ["crc32", "crc64", "sha256"]
+    k = 0
+    for oi, opt in enumerate([None] + OPTION_POOL + ENV_POOL):
+        for tool in ("xz-dc", "xz-t", "xz-d", "xzdec"):
+            if tool == "xzdec" and opt is not None:
+                continue
+            f = {"fmt": "xz", "plain": ["random", 3000, 7], "preset": 0, "check": checks[k % 3], "two_streams": False, "block": 0}
+            k += 1
+            made = make_file(f, S)
+            if made is None:
+                S.inconclusive_count("could-not-create-file")
+                continue
+            z = made[0]
+            index_size = (int.from_bytes(z[-8:-4], "little") + 1) * 4
+            for pos in (len(z) // 2, len(z) - 12 - index_size - 1):
+                scn = {"file": f, "damage": {"kind": "flip", "pos": pos, "bit": (oi + pos) % 8, "len": 0, "seed": 0}, "tool": tool,
+                       "opts": [opt] if isinstance(opt, str) else [], "env": opt if isinstance(opt, list) else None, "before": [], "after": []}
+                S.evaluations += 1
+                S.count("fixed_check-only-damage_x_option")
+                try:
+                    oracle(scn, S)
+                except base.Violation as v:
+                    v.scenario = scn
+                    raise
+
+
 if __name__ == "__main__":
-    raise SystemExit(base.main("c05_cli", scenarios, oracle, budgets={"quick": 700, "thorough": 8000}))
+    raise SystemExit(base.main("c05_cli", scenarios, oracle, budgets={"quick": 700, "thorough": 8000}, extra_runs=fixed_scenarios))
